@@ -30,7 +30,7 @@ class Other:
     pass
 
 
-WRONG_TYPES = [None, "1", b"\x01", 1.0, 1 + 0j, [1], Other()]
+WRONG_TYPES = [None, "1", b"\x01", 1.0, 2.5, 1 + 0j, [1], Other()]
 
 
 def int_values(t) -> List[Any]:
@@ -201,6 +201,7 @@ def check_arrays(mod, col: Collector, tier: str):
             isint = t in valx.INT_TYPES
             f = f"a_{t}"
             good = [1, 2, 3, 4][:n] if isint else [1.5, -2.5, 0.0, 4.0][:n]
+            prefill = [9] * n if isint else [9.5] * n
             lo, hi = valx.int_bounds(t) if isint else (None, None)
             vals = (int_values(t) if isint else float_values(t)) + WRONG_TYPES
             verdict = (lambda v: "in" if in_int_domain(t, v) else "out") if isint else (lambda v: float_verdict(t, v))
@@ -234,7 +235,7 @@ def check_arrays(mod, col: Collector, tier: str):
                         seq = list(good)
                         seq[pos] = bad
                         m = Mn()
-                        setattr(m, f, good)
+                        setattr(m, f, prefill)
                         col.attempt(m, f"{f}={formname}(bad@{pos}:{bad!r})", lambda: setattr(m, f, form(seq)), "out", lambda: getattr(m, f)[:])
                         if not isint:
                             # ... also next to a NaN, in every arrangement
@@ -244,8 +245,16 @@ def check_arrays(mod, col: Collector, tier: str):
                                 seq2 = list(seq)
                                 seq2[npos] = NAN
                                 m = Mn()
-                                setattr(m, f, good)
+                                setattr(m, f, prefill)
                                 col.attempt(m, f"{f}={formname}(bad@{pos}:{bad!r},nan@{npos})", lambda: setattr(m, f, form(seq2)), "out", lambda: getattr(m, f)[:])
+                if isint and n >= 3:
+                    for mid in (2.5, 2.0, NAN, complex(2, 0)):
+                        for pos in range(1, n):
+                            seq = [1, 2, 3, 4][:n]
+                            seq[pos] = mid
+                            m = Mn()
+                            setattr(m, f, prefill)
+                            col.attempt(m, f"{f}={formname}(inner@{pos}:{mid!r})", lambda: setattr(m, f, form(seq)), "out", lambda: getattr(m, f)[:])
                 # wrong lengths
                 for seq in (good[:-1], good + good[:1], []):
                     m = Mn()
@@ -290,7 +299,7 @@ def check_arrays(mod, col: Collector, tier: str):
                         r2 = list(repl)
                         r2[pos] = bads[0]
                         m = Mn()
-                        setattr(m, f, good)
+                        setattr(m, f, prefill)
                         arr = getattr(m, f)
                         col.attempt(m, f"{f}[{sl.start}:{sl.stop}:{sl.step}]=bad@{pos}", lambda: arr.__setitem__(sl, r2), "out", lambda: getattr(m, f)[:])
                 m = Mn()
@@ -336,7 +345,8 @@ def check_arrays(mod, col: Collector, tier: str):
                 seq = list(gs)
                 seq[pos] = bad
                 m = Mn()
-                m.sa[0].a = 5
+                for el in m.sa:
+                    el.a = 5
                 col.attempt(m, f"sa=list(bad@{pos}:{type(bad).__name__})", lambda: setattr(m, "sa", seq), "out")
                 if n > 1:
                     sl = slice(0, n)
@@ -439,6 +449,78 @@ def check_disable_blocks(mod, col: Collector, maxlen: int) -> int:
     return count
 
 
+def check_threads(mod, col: Collector) -> int:
+    """a disable block on one thread must not switch validation off for another thread: every interleaving of the
+    enter / leave operations of two threads (each thread: enter, leave), state probed on BOTH threads after every step"""
+    import threading
+    from pyrtma.validators import disable_message_validation
+
+    def is_on():
+        m = mod.MDF_VAL2()
+        try:
+            m.f_int8 = 1000
+        except Exception:
+            return True
+        return False
+
+    n = 0
+    for order in sorted(set(itertools.permutations(["E1", "L1", "E2", "L2"]))):
+        if order.index("E1") > order.index("L1") or order.index("E2") > order.index("L2"):
+            continue
+        n += 1
+        col.n += 1
+        cmds = {1: [], 2: []}
+        done = {1: threading.Event(), 2: threading.Event()}
+        go = {1: threading.Event(), 2: threading.Event()}
+        obs: List[Any] = []
+
+        def worker(tid):
+            cm = None
+            while True:
+                go[tid].wait()
+                go[tid].clear()
+                op = cmds[tid].pop(0)
+                if op == "E":
+                    cm = disable_message_validation()
+                    cm.__enter__()
+                elif op == "L":
+                    cm.__exit__(None, None, None)
+                elif op == "P":
+                    obs.append((tid, is_on()))
+                elif op == "Q":
+                    done[tid].set()
+                    return
+                done[tid].set()
+
+        ths = {t: threading.Thread(target=worker, args=(t,), daemon=True) for t in (1, 2)}
+        for t in ths.values():
+            t.start()
+
+        def do(tid, op):
+            cmds[tid].append(op)
+            done[tid].clear()
+            go[tid].set()
+            done[tid].wait(5)
+
+        depth = {1: 0, 2: 0}
+        bad = None
+        for k, step in enumerate(order):
+            tid = int(step[1])
+            do(tid, step[0])
+            depth[tid] += 1 if step[0] == "E" else -1
+            for t in (1, 2):
+                obs.clear()
+                do(t, "P")
+                if obs and obs[0][1] != (depth[t] == 0) and bad is None:
+                    bad = {"kind": "validation-state-across-threads", "sequence": " ".join(order), "after_op": k, "thread": t,
+                           "open_blocks_of_that_thread": depth[t], "validation_on": obs[0][1]}
+        for t in (1, 2):
+            do(t, "Q")
+        if bad:
+            col.problems.append(bad)
+    return n
+
+
 # ---- shipped test definitions ---------------------------------------------------------------------------
 
 def check_test_defs(col: Collector):
@@ -504,10 +586,11 @@ def run(tier: str) -> int:
     check_scalars(mod, col)
     check_arrays(mod, col, tier)
     nblocks = check_disable_blocks(mod, col, 5 if tier == "quick" else 8)
+    nthreads = check_threads(mod, col)
     ncls = check_test_defs(col)
     for p in col.problems:
         what = p.get("what", p.get("sequence", ""))
-        cls = what.split("=")[0].split("[")[0] if p["kind"] != "validation-state" else "disable"
+        cls = what.split("=")[0].split("[")[0] if not p["kind"].startswith("validation-state") else "disable"
         form = "seq" if ("@" in what or "list" in what or "tuple" in what) else "scalar"
         chk.violation(f"C09:{p['kind']}:{cls.split('.')[-1] if '.' not in cls else 'testdefs'}:{form}", f"{p}", {"module": "vf.checks.c09", "problem": p}, size=len(what))
     chk.sample({"form": "a_float[3] = [nan, 1e39, 1.0]", "oracle": "must raise and leave bytes(msg) unchanged"})
@@ -515,6 +598,7 @@ def run(tier: str) -> int:
     chk.count("accepted", col.accepted)
     chk.count("refused", col.refused)
     chk.count("disable_block_sequences", nblocks)
+    chk.count("two_thread_interleavings", nthreads)
     chk.count("test_def_classes", ncls)
     chk.assumptions += ["CPython/ctypes conversion is the ground truth for 'nearest representable value'",
                         "explicit +-inf assigned to a float field and '' assigned to a char are treated as unspecified"]
@@ -527,6 +611,7 @@ def replay(case) -> int:
     check_scalars(mod, col)
     check_arrays(mod, col, "quick")
     check_disable_blocks(mod, col, 5)
+    check_threads(mod, col)
     want = case["problem"]
     hit = [p for p in col.problems if p.get("what") == want.get("what") and p.get("sequence") == want.get("sequence") and p["kind"] == want["kind"]]
     for p in hit[:5]:
